@@ -291,11 +291,19 @@ def check_spec(desc: tuple) -> Dict[str, Any]:
             out['n'] += 1
             caller = copy.deepcopy(given)
             snapshot = copy.deepcopy(given)
-            try:
-                want: Any = R.accept(desc, copy.deepcopy(given))
-                want_ok = True
-            except R.Rejected as exc:
-                want, want_ok = str(exc), False
+            # the readings the statement leaves open (an empty mapping given explicitly for an optional namespace: nothing or
+            # something; an optional namespace not given at all: looked into once the defaults are filled in, or not; a
+            # namespace's own default: completed with the defaults inside or taken as it is) give up to six acceptable
+            # answers; the implementation has to agree with one of them
+            readings: List[Tuple[bool, Any]] = []
+            for strict, skip_absent in ((False, False), (True, False), (True, True)):
+                for verbatim in (False, True):
+                    try:
+                        readings.append((True, R.accept(desc, copy.deepcopy(given), strict, verbatim, skip_absent)))
+                    except R.Rejected as exc:
+                        readings.append((False, str(exc)))
+            want_ok, want = readings[0]
+            verdicts = {ok for ok, _ in readings}
 
             def violate(clause: str, detail: Any = None, **feats: Any) -> None:
                 f = feature_of(desc)
@@ -308,7 +316,7 @@ def check_spec(desc: tuple) -> Dict[str, Any]:
                 got_ok = True
             except Exception as exc:  # noqa: BLE001 - any refusal counts as "construction raises"
                 got_ok, proc, err = False, None, exc
-            if got_ok != want_ok:
+            if got_ok not in verdicts:
                 violate('accepts-what-spec-rejects' if got_ok else 'rejects-what-spec-accepts',
                         {'model': want, 'impl': 'constructed' if got_ok else repr(err)})  # type: ignore[possibly-undefined]
                 if proc is not None:
@@ -327,9 +335,9 @@ def check_spec(desc: tuple) -> Dict[str, Any]:
                     twin.close()
                 except Exception as exc:  # noqa: BLE001
                     twin_ok, twin_inputs, twin_err = False, None, exc
-                if twin_ok != got_ok:
-                    violate('frozen-mappings:accepts-what-spec-rejects' if twin_ok else 'frozen-mappings:rejects-what-spec-accepts',
-                            {'model': want, 'impl': 'constructed' if twin_ok else repr(twin_err)})  # type: ignore[possibly-undefined]
+                # (refusing such a mapping altogether is not judged: the quantifier speaks of input *dictionaries*)
+                if twin_ok and not got_ok:
+                    violate('frozen-mappings:accepts-what-spec-rejects', {'model': want, 'impl': 'constructed'})
                 elif twin_ok and twin_inputs != plain(proc.inputs):
                     violate('frozen-mappings:inputs-differ', {'frozen': twin_inputs, 'plain': plain(proc.inputs)})
             if not got_ok:
@@ -339,7 +347,7 @@ def check_spec(desc: tuple) -> Dict[str, Any]:
             got = plain(proc.inputs)
             if len(first_accepted) < 3:
                 first_accepted.append((snapshot, copy.deepcopy(got)))
-            if R.prune(got) != R.prune(want):
+            if not any(ok and R.prune(got) == R.prune(w) for ok, w in readings):
                 violate('inputs-differ', {'got': got, 'want': want})
             raw = plain(proc.raw_inputs)
             if raw != snapshot:
